@@ -1,1 +1,805 @@
-(** Model/Codec.v — placeholder, to be written. *)
+(** Model/Codec.v — the structured-file steps of pypyr (C16).
+
+    Mirrors, as they are written:
+      json.dump(payload, f, indent=2, ensure_ascii=False)  -> [jprint] / [json_print]
+         (pypyr.config: json_indent = 2, json_ascii = False; used by filewritejson and
+          JsonRepresenter.dump)
+      json.load(f)                                          -> [json_parse]
+         (CPython json.decoder/scanner: whitespace, literals, ints, strings with the
+          escapes, arrays, objects with last-duplicate-wins; floats are outside the model)
+      pypyr.steps.filewrite{json,yaml,toml}.run_step        -> [write_step]
+      pypyr.steps.fetch{json,yaml,toml}.run_step            -> [fetch_step]
+      pypyr.parser.{jsonfile,yamlfile,tomlfile}             -> [file_parser]
+      ObjectRewriterStep + ObjectRewriter.in_to_out         -> [fileformat_obj], [fileformat_step]
+         (single existing in-file, out a file path or absent = in place)
+
+    ruamel.yaml and tomllib/tomli-w are third-party code that is NOT modelled: the YAML
+    and TOML steps are the same step functions instantiated with a [codec] record whose two
+    functions are supplied from outside (a table of observations in the correspondence
+    run, Section variables in the theorems).
+
+    A file system is an association list path -> text.  The text is what the step hands
+    to / gets from the file object, as UTF-8 bytes; the on-disk encoding chosen with the
+    [encoding] input is outside the model (write and read use the same one).
+
+    [Unsup] = outside the modelled fragment. *)
+From PV Require Export Format.
+Open Scope string_scope.
+
+(** * json.dump(indent=2, ensure_ascii=False) *)
+Definition nlc : ascii := ascii_of_nat 10.
+Definition bslash : ascii := "\"%char.
+
+(** "\n" + "  " * level *)
+Definition nl (lvl : nat) : string := String nlc (repeat_char " "%char (2 * lvl)).
+
+(** py_encode_basestring: quotes, backslash, the five short escapes, other C0 controls as
+    \u00XX; everything else (DEL and all non-ASCII bytes included) verbatim. *)
+Definition jquote (s : string) : string :=
+  String dquote (json_str_body s ++ String dquote EmptyString).
+
+(** dict keys: str as is; int / bool / None coerced to their JSON spelling *)
+Definition jkey (k : val) : string :=
+  match k with
+  | VStr s => jquote s
+  | VInt z => String dquote (str_of_Z z ++ String dquote EmptyString)
+  | VBool true => jquote "true"
+  | VBool false => jquote "false"
+  | VNone => jquote "null"
+  | _ => EmptyString
+  end.
+
+(** _make_iterencode with _indent = "  ", separators (",", ": ").  Total; meaningful on
+    values accepted by [json_ok]. *)
+Fixpoint jprint (lvl : nat) (v : val) : string :=
+  let fix items (l : list val) : string :=
+    match l with
+    | [] => EmptyString
+    | x :: r => "," ++ nl (S lvl) ++ jprint (S lvl) x ++ items r
+    end in
+  let fix pairs (l : list (val * val)) : string :=
+    match l with
+    | [] => EmptyString
+    | (k, x) :: r => "," ++ nl (S lvl) ++ jkey k ++ ": " ++ jprint (S lvl) x ++ pairs r
+    end in
+  match v with
+  | VNone => "null"
+  | VBool true => "true"
+  | VBool false => "false"
+  | VInt z => str_of_Z z
+  | VStr s => jquote s
+  | VList l | VTuple l =>
+      match l with
+      | [] => "[]"
+      | x :: r => "[" ++ nl (S lvl) ++ jprint (S lvl) x ++ items r ++ nl lvl ++ "]"
+      end
+  | VDict l =>
+      match l with
+      | [] => "{}"
+      | (k, x) :: r =>
+          "{" ++ nl (S lvl) ++ jkey k ++ ": " ++ jprint (S lvl) x ++ pairs r ++ nl lvl ++ "}"
+      end
+  | _ => EmptyString
+  end.
+
+Definition jkey_ok (k : val) : bool :=
+  match k with VStr _ | VInt _ | VBool _ | VNone => true | _ => false end.
+
+(** what json.dump serialises without raising (floats: outside the model) *)
+Fixpoint json_ok (v : val) : bool :=
+  let fix all (l : list val) : bool :=
+    match l with [] => true | x :: r => json_ok x && all r end in
+  let fix alld (l : list (val * val)) : bool :=
+    match l with [] => true | (k, x) :: r => jkey_ok k && json_ok x && alld r end in
+  match v with
+  | VNone | VBool _ | VInt _ | VStr _ => true
+  | VList l | VTuple l => all l
+  | VDict l => alld l
+  | _ => false
+  end.
+
+(** the JSON-representable payloads: what json.dump writes and json.load gives back
+    unchanged - None, bool, int, str, lists, dicts with distinct str keys, nested to any
+    depth.  (Tuples are written as arrays and come back as lists; non-str keys come back
+    as str; floats are outside the model.) *)
+Fixpoint uniq_keys (l : list (val * val)) : bool :=
+  match l with
+  | [] => true
+  | (k, _) :: r => negb (dict_has k r) && uniq_keys r
+  end.
+
+Fixpoint json_rt (v : val) : bool :=
+  let fix all (l : list val) : bool :=
+    match l with [] => true | x :: r => json_rt x && all r end in
+  let fix alld (l : list (val * val)) : bool :=
+    match l with
+    | [] => true
+    | (k, x) :: r => (match k with VStr _ => true | _ => false end) && json_rt x && alld r
+    end in
+  match v with
+  | VNone | VBool _ | VInt _ | VStr _ => true
+  | VList l => all l
+  | VDict l => alld l && uniq_keys l
+  | _ => false
+  end.
+
+Definition json_representable (v : val) : Prop := json_rt v = true.
+
+Definition json_print (v : val) : option string :=
+  if json_ok v then Some (jprint 0 v) else None.
+
+(** * json.load *)
+Definition is_ws (c : ascii) : bool :=
+  let n := nat_of_ascii c in
+  Nat.eqb n 32 || Nat.eqb n 9 || Nat.eqb n 10 || Nat.eqb n 13.
+
+Fixpoint skip_ws (s : string) : string :=
+  match s with
+  | EmptyString => EmptyString
+  | String c r => if is_ws c then skip_ws r else s
+  end.
+
+Definition hexval (c : ascii) : option Z :=
+  let n := nat_of_ascii c in
+  if Nat.leb 48 n && Nat.leb n 57 then Some (Z.of_nat (n - 48))
+  else if Nat.leb 97 n && Nat.leb n 102 then Some (Z.of_nat (n - 87))
+  else if Nat.leb 65 n && Nat.leb n 70 then Some (Z.of_nat (n - 55))
+  else None.
+
+Definition hex4 (a b c d : ascii) : option Z :=
+  match hexval a, hexval b, hexval c, hexval d with
+  | Some x, Some y, Some z, Some w => Some (((x * 16 + y) * 16 + z) * 16 + w)%Z
+  | _, _, _, _ => None
+  end.
+
+Definition byte (z : Z) : string := String (ascii_of_nat (Z.to_nat z)) EmptyString.
+
+(** UTF-8 encoding of one code point (the model's strings are UTF-8 bytes) *)
+Definition utf8 (cp : Z) : string :=
+  if (cp <? 128)%Z then byte cp
+  else if (cp <? 2048)%Z then byte (192 + cp / 64) ++ byte (128 + cp mod 64)
+  else if (cp <? 65536)%Z then
+    byte (224 + cp / 4096) ++ byte (128 + (cp / 64) mod 64) ++ byte (128 + cp mod 64)
+  else byte (240 + cp / 262144) ++ byte (128 + (cp / 4096) mod 64)
+       ++ byte (128 + (cp / 64) mod 64) ++ byte (128 + cp mod 64).
+
+Definition is_high (z : Z) : bool := (55296 <=? z)%Z && (z <=? 56319)%Z.
+Definition is_low (z : Z) : bool := (56320 <=? z)%Z && (z <=? 57343)%Z.
+
+Definition simple_escape (e : ascii) : option ascii :=
+  if Ascii.eqb e dquote then Some dquote
+  else if Ascii.eqb e bslash then Some bslash
+  else if Ascii.eqb e "/"%char then Some "/"%char
+  else if Ascii.eqb e "b"%char then Some (ascii_of_nat 8)
+  else if Ascii.eqb e "f"%char then Some (ascii_of_nat 12)
+  else if Ascii.eqb e "n"%char then Some (ascii_of_nat 10)
+  else if Ascii.eqb e "r"%char then Some (ascii_of_nat 13)
+  else if Ascii.eqb e "t"%char then Some (ascii_of_nat 9)
+  else None.
+
+Definition prepend (p : string) (o : option (string * string)) : option (string * string) :=
+  match o with Some (t, rest) => Some (p ++ t, rest) | None => None end.
+
+(** scanstring (strict): input is what follows the opening quote; result is the decoded
+    text and what follows the closing quote.  A lone surrogate escape has no UTF-8 form:
+    [None]. *)
+Fixpoint parse_str_body (s : string) : option (string * string) :=
+  match s with
+  | EmptyString => None
+  | String c r =>
+      if Ascii.eqb c dquote then Some (EmptyString, r)
+      else if Ascii.eqb c bslash then
+        match r with
+        | EmptyString => None
+        | String e r2 =>
+            if Ascii.eqb e "u"%char then
+              match r2 with
+              | String h1 (String h2 (String h3 (String h4 r3))) =>
+                  match hex4 h1 h2 h3 h4 with
+                  | None => None
+                  | Some hi =>
+                      if is_high hi then
+                        match r3 with
+                        | String b (String u (String g1 (String g2 (String g3 (String g4 r4))))) =>
+                            if Ascii.eqb b bslash && Ascii.eqb u "u"%char then
+                              match hex4 g1 g2 g3 g4 with
+                              | Some lo =>
+                                  if is_low lo
+                                  then prepend (utf8 (65536 + (hi - 55296) * 1024 + (lo - 56320)))
+                                               (parse_str_body r4)
+                                  else None
+                              | None => None
+                              end
+                            else None
+                        | _ => None
+                        end
+                      else if is_low hi then None
+                      else prepend (utf8 hi) (parse_str_body r3)
+                  end
+              | _ => None
+              end
+            else
+              match simple_escape e with
+              | Some ch => prepend (String ch EmptyString) (parse_str_body r2)
+              | None => None
+              end
+        end
+      else if Nat.ltb (nat_of_ascii c) 32 then None
+      else prepend (String c EmptyString) (parse_str_body r)
+  end.
+
+Fixpoint span_digits (s : string) : string * string :=
+  match s with
+  | EmptyString => (EmptyString, EmptyString)
+  | String c r =>
+      if is_digit c then let '(d, rest) := span_digits r in (String c d, rest)
+      else (EmptyString, s)
+  end.
+
+Definition float_mark (c : ascii) : bool :=
+  Ascii.eqb c "."%char || Ascii.eqb c "e"%char || Ascii.eqb c "E"%char.
+
+(** NUMBER_RE, integer results only: optional minus, then 0 or a digit string without a
+    leading zero, not followed by a fraction or exponent *)
+Definition parse_int (s : string) : option (Z * string) :=
+  let '(neg, s1) := match s with
+                    | String c r => if Ascii.eqb c "-"%char then (true, r) else (false, s)
+                    | EmptyString => (false, s)
+                    end in
+  let '(ds, rest) := span_digits s1 in
+  match ds with
+  | EmptyString => None
+  | String d ds' =>
+      if Ascii.eqb d "0"%char && negb (String.eqb ds' EmptyString) then None
+      else if match rest with String c _ => float_mark c | EmptyString => false end then None
+      else let n := digits_to_Z ds 0 in Some ((if neg then (- n)%Z else n), rest)
+  end.
+
+Fixpoint strip_prefix (p s : string) : option string :=
+  match p with
+  | EmptyString => Some s
+  | String a p' =>
+      match s with
+      | String b s' => if Ascii.eqb a b then strip_prefix p' s' else None
+      | EmptyString => None
+      end
+  end.
+
+(** "key" ws : ws value, with [pv] the value parser *)
+Definition parse_member (pv : string -> option (val * string)) (s : string)
+  : option ((val * val) * string) :=
+  match s with
+  | String c r =>
+      if Ascii.eqb c dquote then
+        match parse_str_body r with
+        | Some (k, r1) =>
+            match skip_ws r1 with
+            | String c2 r2 =>
+                if Ascii.eqb c2 ":"%char then
+                  match pv (skip_ws r2) with
+                  | Some (x, r3) => Some ((VStr k, x), r3)
+                  | None => None
+                  end
+                else None
+            | EmptyString => None
+            end
+        | None => None
+        end
+      else None
+  | EmptyString => None
+  end.
+
+(** scan_once / JSONArray / JSONObject.  [parse_elems] and [parse_members] are the loops
+    positioned after a value: "," value ... "]".  Fuel: one unit per nested call. *)
+Fixpoint parse_value (fuel : nat) (s : string) {struct fuel} : option (val * string) :=
+  match fuel with
+  | O => None
+  | S f =>
+      match s with
+      | EmptyString => None
+      | String c r =>
+          if Ascii.eqb c dquote then
+            match parse_str_body r with
+            | Some (t, rest) => Some (VStr t, rest)
+            | None => None
+            end
+          else if Ascii.eqb c "["%char then
+            match skip_ws r with
+            | EmptyString => None
+            | String c2 r2 =>
+                if Ascii.eqb c2 "]"%char then Some (VList [], r2)
+                else
+                  match parse_value f (String c2 r2) with
+                  | Some (x, r3) =>
+                      match parse_elems f r3 with
+                      | Some (xs, r4) => Some (VList (x :: xs), r4)
+                      | None => None
+                      end
+                  | None => None
+                  end
+            end
+          else if Ascii.eqb c "{"%char then
+            match skip_ws r with
+            | EmptyString => None
+            | String c2 r2 =>
+                if Ascii.eqb c2 "}"%char then Some (VDict [], r2)
+                else
+                  match parse_member (parse_value f) (String c2 r2) with
+                  | Some (kx, r3) =>
+                      match parse_members f r3 with
+                      | Some (kxs, r4) => Some (VDict (rebuild_dict (kx :: kxs)), r4)
+                      | None => None
+                      end
+                  | None => None
+                  end
+            end
+          else
+            match strip_prefix "null" s with
+            | Some rest => Some (VNone, rest)
+            | None =>
+                match strip_prefix "true" s with
+                | Some rest => Some (VBool true, rest)
+                | None =>
+                    match strip_prefix "false" s with
+                    | Some rest => Some (VBool false, rest)
+                    | None =>
+                        match parse_int s with
+                        | Some (z, rest) => Some (VInt z, rest)
+                        | None => None
+                        end
+                    end
+                end
+            end
+      end
+  end
+with parse_elems (fuel : nat) (s : string) {struct fuel} : option (list val * string) :=
+  match fuel with
+  | O => None
+  | S f =>
+      match skip_ws s with
+      | EmptyString => None
+      | String c r =>
+          if Ascii.eqb c ","%char then
+            match parse_value f (skip_ws r) with
+            | Some (x, r2) =>
+                match parse_elems f r2 with
+                | Some (xs, r3) => Some (x :: xs, r3)
+                | None => None
+                end
+            | None => None
+            end
+          else if Ascii.eqb c "]"%char then Some ([], r)
+          else None
+      end
+  end
+with parse_members (fuel : nat) (s : string) {struct fuel}
+  : option (list (val * val) * string) :=
+  match fuel with
+  | O => None
+  | S f =>
+      match skip_ws s with
+      | EmptyString => None
+      | String c r =>
+          if Ascii.eqb c ","%char then
+            match parse_member (parse_value f) (skip_ws r) with
+            | Some (kx, r2) =>
+                match parse_members f r2 with
+                | Some (kxs, r3) => Some (kx :: kxs, r3)
+                | None => None
+                end
+            | None => None
+            end
+          else if Ascii.eqb c "}"%char then Some ([], r)
+          else None
+      end
+  end.
+
+(** json.loads: leading whitespace, one value, trailing whitespace, end.  [None] = the
+    text is not JSON, or uses something outside the model (floats, lone surrogates). *)
+Definition json_parse (s : string) : option val :=
+  match parse_value (S (String.length s)) (skip_ws s) with
+  | Some (v, rest) =>
+      match skip_ws rest with
+      | EmptyString => Some v
+      | _ => None
+      end
+  | None => None
+  end.
+
+(** * Codecs *)
+Inductive fmt := FJson | FYaml | FToml.
+
+Record codec := { c_print : val -> res string; c_parse : string -> res val }.
+
+Definition json_codec : codec :=
+  {| c_print := fun v => res_of_opt (json_print v);
+     c_parse := fun s => match json_parse s with
+                         | Some v => Ok v
+                         | None => Unsup    (* JSONDecodeError, or outside the model *)
+                         end |}.
+
+(** A codec given by a finite table of observed (argument, result) pairs: how the YAML and
+    TOML steps are instantiated in the correspondence run. *)
+Fixpoint tbl_print (t : list (val * res string)) (v : val) : res string :=
+  match t with
+  | [] => Unsup
+  | (a, r) :: t' => if val_eqb a v then r else tbl_print t' v
+  end.
+
+Fixpoint tbl_parse (t : list (string * res val)) (s : string) : res val :=
+  match t with
+  | [] => Unsup
+  | (a, r) :: t' => if String.eqb a s then r else tbl_parse t' s
+  end.
+
+Definition table_codec (tp : list (val * res string)) (tl : list (string * res val)) : codec :=
+  {| c_print := tbl_print tp; c_parse := tbl_parse tl |}.
+
+(** * File system: path -> text *)
+Definition fs := list (string * string).
+
+Fixpoint fs_read (p : string) (f : fs) : option string :=
+  match f with
+  | [] => None
+  | (q, t) :: r => if String.eqb p q then Some t else fs_read p r
+  end.
+
+Fixpoint fs_write (p t : string) (f : fs) : fs :=
+  match f with
+  | [] => [(p, t)]
+  | (q, u) :: r => if String.eqb p q then (q, t) :: r else (q, u) :: fs_write p t r
+  end.
+
+(** * Step plumbing *)
+Definition write_key (f : fmt) : string :=
+  match f with FJson => "fileWriteJson" | FYaml => "fileWriteYaml" | FToml => "fileWriteToml" end.
+Definition fetch_key (f : fmt) : string :=
+  match f with FJson => "fetchJson" | FYaml => "fetchYaml" | FToml => "fetchToml" end.
+Definition format_key (f : fmt) : string :=
+  match f with FJson => "fileFormatJson" | FYaml => "fileFormatYaml" | FToml => "fileFormatToml" end.
+Definition write_mod (f : fmt) : string :=
+  match f with FJson => "pypyr.steps.filewritejson" | FYaml => "pypyr.steps.filewriteyaml"
+             | FToml => "pypyr.steps.filewritetoml" end.
+Definition fetch_mod (f : fmt) : string :=
+  match f with FJson => "pypyr.steps.fetchjson" | FYaml => "pypyr.steps.fetchyaml"
+             | FToml => "pypyr.steps.fetchtoml" end.
+Definition format_mod (f : fmt) : string :=
+  match f with FJson => "pypyr.steps.fileformatjson" | FYaml => "pypyr.steps.fileformatyaml"
+             | FToml => "pypyr.steps.fileformattoml" end.
+
+Definition E_KeyNotInContext := "pypyr.errors.KeyNotInContextError".
+Definition E_KeyNoValue := "pypyr.errors.KeyInContextHasNoValueError".
+
+(** asserts.assert_key_has_value(obj, key, caller, parent) on a dict *)
+Definition assert_has_value (d : dict) (key caller : string) (parent : option string) : res val :=
+  let where_ := match parent with
+                | Some p => "context[" ++ repr_str p ++ "][" ++ repr_str key ++ "]"
+                | None => "context[" ++ repr_str key ++ "]"
+                end in
+  match sget key d with
+  | None => Err E_KeyNotInContext (where_ ++ " doesn't exist. It must exist for " ++ caller ++ ".")
+  | Some VNone => Err E_KeyNoValue (where_ ++ " must have a value for " ++ caller ++ ".")
+  | Some v => Ok v
+  end.
+
+(** Context.get_formatted(key): format the value under [key]; a key-lookup error from the
+    formatter is re-raised as the same class with a longer message (only the class is
+    compared). *)
+Definition get_formatted (ctx : dict) (key : string) (v : val) : res val :=
+  match format_value FUEL ctx v with
+  | Err n m =>
+      if String.eqb n E_KeyNotInContext
+      then Err n ("Unable to format the value at context['" ++ key ++ "'], because " ++ m)
+      else Err n m
+  | r => r
+  end.
+
+Definition is_mapping (v : val) : bool := match v with VDict _ => true | _ => false end.
+
+Definition has_len (v : val) : bool :=
+  match v with
+  | VStr _ | VBytes _ | VList _ | VTuple _ | VSet _ | VDict _ => true
+  | _ => false
+  end.
+
+(** ** filewrite{json,yaml,toml}.run_step *)
+Definition write_step (f : fmt) (c : codec) (ctx : dict) (files : fs) : res fs :=
+  let* arg := assert_has_value ctx (write_key f) (write_mod f) None in
+  let* inp := get_formatted ctx (write_key f) arg in
+  match inp with
+  | VDict d =>
+      let* p := assert_has_value d "path" (write_mod f) (Some (write_key f)) in
+      match p with
+      | VStr path =>
+          let* payload :=
+            match sget "payload" d with
+            | Some pl =>
+                (* toml only: an explicit payload must be truthy *)
+                match f with
+                | FToml =>
+                    if py_truth pl then Ok pl
+                    else Err E_KeyNoValue
+                             "payload must have a value to write to output TOML document."
+                | _ => Ok pl
+                end
+            | None => format_value FUEL ctx (VDict ctx)   (* the whole context, formatted *)
+            end in
+          let* text := c_print c payload in
+          Ok (fs_write path text files)
+      | _ => Unsup
+      end
+  | _ => Unsup
+  end.
+
+Definition not_mapping_msg (f : fmt) : string :=
+  match f with
+  | FJson => "json input should describe an object at the top level when fetchJson.key isn't specified."
+  | FYaml => "yaml input should describe a dictionary at the top level when fetchYaml.key isn't specified."
+  | FToml => ""
+  end.
+
+(** ** fetch{json,yaml,toml}.run_step.  The key is used when truthy; otherwise the parsed
+    mapping is merged into the context root.  The closing log line takes [len(payload)]:
+    for a parsed scalar that has no length it raises TypeError (after the context was
+    updated; the updated context is not part of the result then). *)
+Definition fetch_step (f : fmt) (c : codec) (ctx : dict) (files : fs) : res dict :=
+  let* arg := assert_has_value ctx (fetch_key f) (fetch_mod f) None in
+  let* inp := get_formatted ctx (fetch_key f) arg in
+  let* pk :=
+    match inp with
+    | VStr p => Ok (VStr p, VNone)
+    | VDict d =>
+        let* p := assert_has_value d "path" (fetch_mod f) (Some (fetch_key f)) in
+        Ok (p, match sget "key" d with Some k => k | None => VNone end)
+    | _ => Unsup
+    end in
+  let '(p, key) := pk in
+  match p with
+  | VStr path =>
+      match fs_read path files with
+      | None => Err "FileNotFoundError" ("[Errno 2] No such file or directory: " ++ repr_str path)
+      | Some text =>
+          let* payload := c_parse c text in
+          let* ctx' :=
+            if py_truth key then
+              match key with
+              | VStr _ | VInt _ | VBool _ => Ok (dict_set key payload ctx)
+              | _ => Unsup
+              end
+            else
+              match payload with
+              | VDict pl => Ok (dict_update ctx pl)
+              | _ =>
+                  match f with
+                  | FToml => Unsup      (* a TOML document is always a table *)
+                  | _ => Err "TypeError" (not_mapping_msg f)
+                  end
+              end in
+          if has_len payload then Ok ctx'
+          else Err "TypeError" ("object of type '" ++ type_name payload ++ "' has no len()")
+      end
+  | _ => Unsup
+  end.
+
+(** ** pypyr.parser.{jsonfile,yamlfile,tomlfile}.get_parsed_context(args):
+    the path is the args joined by one space; [Ok None] = the parser returns None. *)
+Definition file_parser (f : fmt) (c : codec) (args : list string) (files : fs)
+  : res (option val) :=
+  match args with
+  | [] =>
+      match f with
+      | FToml => Ok None
+      | _ => Err "AssertionError" "pipeline must be invoked with context arg set."
+      end
+  | _ =>
+      let path := join " " args in
+      match fs_read path files with
+      | None => Err "FileNotFoundError" ("[Errno 2] No such file or directory: " ++ repr_str path)
+      | Some text =>
+          let* payload := c_parse c text in
+          match f with
+          | FToml => Ok (Some payload)
+          | _ => if is_mapping payload then Ok (Some payload)
+                 else Err "TypeError" "input should describe a mapping at the top level."
+          end
+      end
+  end.
+
+(** ** fileformat{json,yaml,toml}: ObjectRewriter = dump ∘ format ∘ load *)
+Definition fileformat_obj (c : codec) (ctx : dict) (text : string) : res string :=
+  let* obj := c_parse c text in
+  let* obj' := format_value FUEL ctx obj in
+  c_print c obj'.
+
+(** single in-file; [out] absent or None = edit in place *)
+Definition fileformat_step (f : fmt) (c : codec) (ctx : dict) (files : fs) : res fs :=
+  let* arg := assert_has_value ctx (format_key f) (format_mod f) None in
+  let* inp := get_formatted ctx (format_key f) arg in
+  match inp with
+  | VDict d =>
+      let* pin := assert_has_value d "in" (format_mod f) (Some (format_key f)) in
+      match pin with
+      | VStr path_in =>
+          let* path_out :=
+            match sget "out" d with
+            | None | Some VNone => Ok path_in
+            | Some (VStr o) => Ok o
+            | Some _ => Unsup
+            end in
+          match fs_read path_in files with
+          | None => Unsup       (* empty glob result: nothing is rewritten *)
+          | Some text =>
+              let* out := fileformat_obj c ctx text in
+              Ok (fs_write path_out out files)
+          end
+      | _ => Unsup
+      end
+  | _ => Unsup
+  end.
+
+(** values a parsed JSON / YAML / TOML document is made of: the nodes that the
+    fileformat steps walk *)
+Fixpoint is_doc (v : val) : bool :=
+  let fix all (l : list val) : bool :=
+    match l with [] => true | x :: r => is_doc x && all r end in
+  let fix alld (l : list (val * val)) : bool :=
+    match l with [] => true | (k, x) :: r => is_doc k && is_doc x && alld r end in
+  match v with
+  | VNone | VBool _ | VInt _ | VFloat _ | VStr _ => true
+  | VList l => all l
+  | VDict l => alld l
+  | _ => false
+  end.
+
+(** * Domains of the third-party round-trip hypotheses (UTF-8 byte level) *)
+Fixpoint has_sub2 (a b : nat) (s : string) : bool :=
+  match s with
+  | String c ((String d _) as r) =>
+      (Nat.eqb (nat_of_ascii c) a && Nat.eqb (nat_of_ascii d) b) || has_sub2 a b r
+  | _ => false
+  end.
+
+(** U+0085 NEL is C2 85 *)
+Definition has_nel (s : string) : bool := has_sub2 194 133 s.
+
+(** characters that make ruamel's emitter choose the double-quoted style: C0 controls
+    other than LF, DEL, C1 controls (C2 80..9F), U+2028/9 (E2 80 A8/A9), U+FEFF (EF BB BF),
+    U+FFFE/F (EF BF BE/BF), or a blank next to a line break *)
+Fixpoint yaml_dq (s : string) : bool :=
+  match s with
+  | EmptyString => false
+  | String c r =>
+      let n := nat_of_ascii c in
+      (Nat.ltb n 32 && negb (Nat.eqb n 10)) || Nat.eqb n 127
+      || match r with
+         | String d r2 =>
+             let m := nat_of_ascii d in
+             (Nat.eqb n 194 && Nat.leb 128 m && Nat.leb m 159)
+             || (Nat.eqb n 32 && Nat.eqb m 10) || (Nat.eqb n 10 && Nat.eqb m 32)
+             || match r2 with
+                | String e _ =>
+                    let k := nat_of_ascii e in
+                    (Nat.eqb n 226 && Nat.eqb m 128 && (Nat.eqb k 168 || Nat.eqb k 169))
+                    || (Nat.eqb n 239 && Nat.eqb m 187 && Nat.eqb k 191)
+                    || (Nat.eqb n 239 && Nat.eqb m 191 && (Nat.eqb k 190 || Nat.eqb k 191))
+                | EmptyString => false
+                end
+         | EmptyString => false
+         end
+      || yaml_dq r
+  end.
+
+(** the strings on which the YAML emitter/loader pair is assumed to round-trip:
+    no NEL (emitted raw, read back as a line break), and not both double-quoted and
+    containing a blank (a long double-quoted scalar can be folded without the
+    continuation backslash, which reads back an extra blank) *)
+Definition yaml_str_ok (s : string) : bool :=
+  negb (has_nel s) && negb (yaml_dq s && contains_char " "%char s).
+
+Fixpoint all_strings (p : string -> bool) (v : val) : bool :=
+  let fix all (l : list val) : bool :=
+    match l with [] => true | x :: r => all_strings p x && all r end in
+  let fix alld (l : list (val * val)) : bool :=
+    match l with [] => true | (k, x) :: r => all_strings p k && all_strings p x && alld r end in
+  match v with
+  | VStr s => p s
+  | VList l | VTuple l | VSet l => all l
+  | VDict l => alld l
+  | VJsonify x => all_strings p x
+  | _ => true
+  end.
+
+(** scalars/containers both YAML and TOML know; tuples come back as lists, so excluded *)
+Fixpoint plain_data (allow_none : bool) (str_keys : bool) (v : val) : bool :=
+  let fix all (l : list val) : bool :=
+    match l with [] => true | x :: r => plain_data allow_none str_keys x && all r end in
+  let fix alld (l : list (val * val)) : bool :=
+    match l with
+    | [] => true
+    | (k, x) :: r =>
+        (match k with
+         | VStr _ => true
+         | VInt _ | VBool _ | VNone => negb str_keys
+         | _ => false
+         end) && plain_data allow_none str_keys x && alld r
+    end in
+  match v with
+  | VNone => allow_none
+  | VBool _ | VInt _ | VFloat _ | VStr _ => true
+  | VList l => all l
+  | VDict l => alld l
+  | _ => false
+  end.
+
+Definition yaml_representable (v : val) : bool :=
+  plain_data true false v && all_strings yaml_str_ok v.
+
+(** TOML: no None anywhere, string keys, and the document root is a non-empty table
+    (filewritetoml refuses a falsy payload) *)
+Definition toml_representable (v : val) : bool :=
+  plain_data false true v && match v with VDict (_ :: _) => true | _ => false end.
+
+(** document equality up to the order of mapping keys (TOML writes the scalar entries of
+    a table before its sub-tables); strict on types *)
+Fixpoint val_eqv (a b : val) : bool :=
+  let fix go (l1 l2 : list val) : bool :=
+    match l1, l2 with
+    | [], [] => true
+    | x :: xs, y :: ys => val_eqv x y && go xs ys
+    | _, _ => false
+    end in
+  let fix sub (l1 : list (val * val)) (l2 : list (val * val)) : bool :=
+    match l1 with
+    | [] => true
+    | (k, v) :: xs =>
+        (fix find (l : list (val * val)) : bool :=
+           match l with
+           | [] => false
+           | (k', v') :: r => if val_eqb k k' then val_eqv v v' else find r
+           end) l2 && sub xs l2
+    end in
+  match a, b with
+  | VList x, VList y => go x y
+  | VDict x, VDict y => Nat.eqb (List.length x) (List.length y) && sub x y
+  | VList _, _ | _, VList _ | VDict _, _ | _, VDict _ => false
+  | _, _ => val_eqb a b
+  end.
+
+(** * Correspondence helpers: compare a model result with an observation.
+    Errors are compared by class name only. *)
+Definition verdict_n {A} (eqb : A -> A -> bool) (model obs : res A) : nat :=
+  match model, obs with
+  | Unsup, _ => 2%nat
+  | Ok a, Ok b => if eqb a b then 0%nat else 1%nat
+  | Err n _, Err n' _ => if String.eqb n n' then 0%nat else 1%nat
+  | _, _ => 1%nat
+  end.
+
+Definition worst (a b : nat) : nat :=
+  if Nat.eqb a 1 || Nat.eqb b 1 then 1%nat
+  else if Nat.eqb a 0 && Nat.eqb b 0 then 0%nat else 2%nat.
+
+Fixpoint worst_of (l : list nat) : nat :=
+  match l with [] => 0%nat | x :: r => worst x (worst_of r) end.
+
+Definition fs_eqb (a b : fs) : bool :=
+  list_eqb (fun x y : string * string =>
+              String.eqb (fst x) (fst y) && String.eqb (snd x) (snd y)) a b.
+
+Definition opt_val_eqb (a b : option val) : bool :=
+  match a, b with
+  | Some x, Some y => val_eqb x y
+  | None, None => true
+  | _, _ => false
+  end.
+
+(** json_parse against json.load: [obs] = Some v when json.load succeeded *)
+Definition check_json_parse (text : string) (obs : option val) : nat :=
+  match json_parse text, obs with
+  | Some v, Some o => if val_eqb v o then 0%nat else 1%nat
+  | Some _, None => 1%nat
+  | None, Some _ => 2%nat      (* outside the modelled JSON subset (floats, lone surrogates) *)
+  | None, None => 0%nat
+  end.
+
+Definition check_bool (a b : bool) : nat := if Bool.eqb a b then 0%nat else 1%nat.
